@@ -539,7 +539,7 @@ fn c06_c13(rep: &mut Report, which: &str) {
     rep.agg.merge(a);
     if which == "C13" {
         let mut l0 = Agg::default();
-        c03_l0(if thorough { 5 } else { 4 }, 64, &mut l0);
+        c03_l0(if thorough { 6 } else { 4 }, 64, &mut l0);
         split_classes(&mut l0, true);
         rep.agg.merge(l0);
     }
